@@ -52,6 +52,7 @@ func tryEvalCheck(r *rep.Run, kleene bool) {
 		aliasMax = 6
 	}
 	progs = withAliases(progs, aliasMax)
+	progs = withMerged(progs, 5)
 	r.Cov["programs_incl_alias_spellings"] = len(progs)
 	hs := harnesses(r.Workers)
 	opts := optMatrix(0, 1)
@@ -75,6 +76,9 @@ func tryEvalCheck(r *rep.Run, kleene bool) {
 			dom[v] = drive.Domain(p.Vars[v].Ty, false)
 			if !kleene && p.Vars[v].Ty == term.TI {
 				dom[v] = append(dom[v], int(1))
+				if k <= 4 {
+					dom[v] = append(dom[v], nil) // an unset / null value
+				}
 			}
 			if withIll {
 				dom[v] = append(dom[v], illTyped(p.Vars[v].Ty))
@@ -150,6 +154,24 @@ func tryEvalCheck(r *rep.Run, kleene bool) {
 					c.f.Avail = avail
 					h.Reset()
 					got := h.TryEval(c.e, c.f)
+					// user fetchers built by embedding a library fetcher and
+					// overriding Cached/Get must be honoured just the same
+					if c.o.Events == 0 && (c.o.OptBits() == 0 || c.o.OptBits() == 15) {
+						for kind := 0; kind < 2; kind++ {
+							h.Reset()
+							var g2 drive.Out
+							if kind == 0 {
+								g2 = h.TryEval(c.e, embedMap{MapVarFetcher: eval.MapVarFetcher{}, f: c.f})
+							} else {
+								g2 = h.TryEval(c.e, embedSlice{SliceVarFetcher: make(eval.SliceVarFetcher, 2), f: c.f})
+							}
+							ex++
+							if !drive.SameOutcome(g2, got) || (got.Err == nil && isDNE(got.Val) != isDNE(g2.Val)) {
+								r.Violate("embedding-fetcher", p.Src+c.o.String(), sprintf("a fetcher that embeds a library fetcher and overrides Cached/Get gets %s where the plain fetcher gets %s", g2, got), caseDesc(p.Src, c.o, p.Vars, vals, avail, nil))
+							}
+						}
+						h.Reset()
+					}
 					ex++
 					st++
 					tr += int64(len(h.Trace)) + 1
@@ -278,6 +300,24 @@ func tryEvalCheck(r *rep.Run, kleene bool) {
 	r.Cov["programs_completed"] = done
 	r.Finish()
 }
+
+// embedMap / embedSlice: user fetchers that embed a library fetcher (empty)
+// and override the whole protocol.
+type embedMap struct {
+	eval.MapVarFetcher
+	f *drive.Fetcher
+}
+
+func (e embedMap) Get(k eval.VariableKey, s string) (eval.Value, error) { return e.f.Get(k, s) }
+func (e embedMap) Cached(k eval.VariableKey, s string) bool             { return e.f.Cached(k, s) }
+
+type embedSlice struct {
+	eval.SliceVarFetcher
+	f *drive.Fetcher
+}
+
+func (e embedSlice) Get(k eval.VariableKey, s string) (eval.Value, error) { return e.f.Get(k, s) }
+func (e embedSlice) Cached(k eval.VariableKey, s string) bool             { return e.f.Cached(k, s) }
 
 func popcount(x int) int {
 	n := 0
